@@ -59,6 +59,18 @@ def cases(rng, tier):
             op = rng.choice(BINOPS)
             sa, sb = bc_shapes(rng, N, hi)
             a = gen_tensor(rng, sa, stream=stream); b = gen_tensor(rng, sb, stream=stream)
+            if rng.random() < 0.2:
+                # related operands: b is another tensor in (almost) the same Tucker basis as a — equal factors, factors after one
+                # tiny update / a float32 round trip (relative 1e-7), or slightly different ones (1e-3); fresh cores
+                import numpy as _np
+                fk = rng.choice(["narrow", "square", None])
+                fmt = [(rng.choice(["tt", "cp"]), rng.choice([fk, fk, None])) for _ in range(N)]
+                sh = [max(2, x) for x in sa]
+                stream = "float"
+                a = gen_tensor(rng, sh, fmt=fmt, stream="float")
+                pert = rng.choice([0.0, 1e-7, 1e-7, 1e-3])
+                b = PT([_np.array([rng.gauss(0, 1) for _ in range(c.size)]).reshape(c.shape) for c in a.cores],
+                       [None if U is None else U * (1 + pert * _np.array([rng.gauss(0, 1) for _ in range(U.size)]).reshape(U.shape)) for U in a.Us])
             out.append({"kind": "binop", "op": op, "a": a.to_json(), "b": b.to_json(), "stream": stream, "dd": dd})
         else:
             op = rng.choice(["sadd", "radd", "smul", "rsmul", "ssub", "rssub", "neg", "div"])
